@@ -85,10 +85,16 @@ class SimSpec(vlib.Spec):
             for m in ([], [[1, [10]]], [[1, [10, 11]], [2, [20]]], [[1, [10, 11, 12]], [2, []], [7, [70, 71]]],
                       [[3, [1, 1]], [100, [5]], [65536, [6, 7]]]):
                 ktops.append({"kind": kind, "m": m, "tr": None})
-        korders = self.probe_orders(ktops)
-        for h, o in zip(ktops, korders):
-            d = dict((k, q) for k, q in h["m"])
-            tops.append(dict(h, m=[[k, d[k]] for k in (o if o is not None else d)]))
+        for m, m2 in (([], []), ([[1, [10]]], []), ([], [[1, [10, 11]]]), ([[1, [10, 11]], [2, [20]]], [[1, [5]], [3, []]]),
+                      ([[7, [70]], [100, [1, 2]]], [[7, [71, 72]], [65536, [9]]])):
+            ktops.append({"kind": "top_kmerge", "m": m, "m2": m2, "tr": None})
+        probes = [{"k": "hook", "hook": h, "rounds": [{"ds": [], "force": False}]} for h in ktops]
+        pres = vlib.run_harness(self.ctx, self.bin, probes, name="probe_top")
+        for h, r in zip(ktops, pres):
+            try:
+                tops.append(sim.in_impl_order(h, r["rounds"][0]["before"]))
+            except Exception:
+                tops.append(h)
         for h in tops:
             for force in (False, True):
                 scripts = sim.top_scripts(h, force, cap)
@@ -106,6 +112,22 @@ class SimSpec(vlib.Spec):
             for b in range(3):
                 inl.append({"k": "inline", "kind": "merge", "first": [10 * (i + 1) for i in range(a)],
                             "second": [7 * (i + 1) for i in range(b)]})
+        kin = [[[1, 10], [2, 20], [1, 11]], [[1, 10], [1, 11], [1, 12]], [[3, 1], [100, 2], [3, 3], [65536, 4], [100, 5]], [],
+               [[7, 1]]]
+        if thorough:
+            kin.append([[1, 10], [2, 20], [1, 11], [2, 21], [3, 30], [1, 12]])
+        kinl = []
+        for inp in kin:
+            kinl.append({"k": "inline", "kind": "kshuffle", "input": inp})
+            kinl.append({"k": "inline", "kind": "partial", "input": inp})
+        for a, b in (([], []), ([[1, 10]], [[1, 20]]), ([[1, 10], [2, 30], [1, 11]], [[2, 40], [1, 20], [3, 50]]),
+                     ([[1, 1], [1, 2]], [[1, 3], [1, 4]])):
+            kinl.append({"k": "inline", "kind": "kmerge", "first": a, "second": b})
+        pres = vlib.run_harness(self.ctx, self.bin, [dict(c, ds=[]) for c in kinl], name="probe_inl")
+        for c, r in zip(kinl, pres):
+            if c["kind"] == "kshuffle":
+                c["_order"] = r.get("group_order")
+        inl += kinl
         for c in inl:
             scripts = sim.inline_scripts(c, cap)
             for ds in scripts:
@@ -265,7 +287,7 @@ class C36(SimSpec):
         "verif_can_run re-states SimTick::can_run on a bare hook list (SimTick needs a DFIR); a change to can_run itself is not seen",
         "tick-level property assumes idle hooks, can_run, and (keyed singleton) that a key with an empty queue was released before",
         "run_hooks is also driven on ticks that can_run reports NOT runnable (the scheduler never does): the explicit 'No input and no last released item' panics there are modelled and compared, not property failures",
-        "TopLevel hooks order, fold, merge_ordered, keyed order, partially-ordered and inline hooks StreamOrder, MergeOrdered are modelled; TopLevelKeyedMergeOrdered and the inline KeyedStreamOrder, PartiallyOrdered, KeyedMergeOrdered (4 of 18 hook kinds) are not",
+        "all 18 hook kinds of sim/runtime.rs are modelled (7 batch, 6 top-level observation, 5 inline)",
     ]
     rule = ("hook or tick (list of hooks under run_hooks) + rounds of (push, force, decision script); exhaustive: every "
             "decision string of every small configuration (queue length <= 3 quick / 4 thorough) per hook kind and of "
